@@ -158,7 +158,7 @@ Section Facts.
   Ltac hsimpl :=
     cbn [request plugin buffer must_flush reads_teared torn sent hq pq orc_calls ocd parse_calls exc
          client_gone mk queue_h queue_p set_request note_parse set_plugin note_orc note_ocd
-         set_must_flush set_reads_teared set_torn set_exc set_client_gone set_io fst snd map].
+         set_must_flush set_reads_teared set_torn set_exc set_client_gone set_io fst snd map exn_response].
 
   (* what handle_data may change: it appends to the buffer what the plugin hook queued and then at
      most one packet of the handler's own, whose site is recorded truthfully; it never touches
